@@ -75,10 +75,15 @@ var rawText = map[string]bool{"script": true, "style": true, "textarea": true, "
 // Project flattens nodes in pre-order.
 func Project(nodes []*html.Node, o Options) []El {
 	var out []El
+	pre := 0 // depth of <pre> nesting: every character of text is content there
 	var walk func(n *html.Node, d int, parent string)
 	walk = func(n *html.Node, d int, parent string) {
 		switch n.Type {
 		case html.ElementNode:
+			if n.Data == "pre" {
+				pre++
+				defer func() { pre-- }()
+			}
 			e := El{Depth: d, Tag: n.Data}
 			for _, a := range n.Attr {
 				v := ""
@@ -97,10 +102,20 @@ func Project(nodes []*html.Node, o Options) []El {
 				return
 			}
 			t := n.Data
-			if !(o.RawText && rawText[parent]) {
+			verbatim := o.RawText && (rawText[parent] || pre > 0)
+			if !verbatim {
 				t = NormText(t)
 			}
-			if strings.TrimFunc(t, IsHTMLSpace) == "" {
+			if !(verbatim && pre > 0) && strings.TrimFunc(t, IsHTMLSpace) == "" {
+				return
+			}
+			if verbatim && pre > 0 {
+				// adjacent text inside <pre>: concatenated verbatim
+				if len(out) > 0 && out[len(out)-1].Tag == "#text" && out[len(out)-1].Depth == d {
+					out[len(out)-1].Text += t
+					return
+				}
+				out = append(out, El{Depth: d, Tag: "#text", Text: t})
 				return
 			}
 			// merge adjacent text runs
